@@ -122,7 +122,8 @@ impl Store {
             slot: self.slot,
             epoch_start_timestamp: 0,
             epoch: self.epoch,
-            leader_schedule_epoch: self.epoch,
+            // as on a real cluster: the leader schedule is known one epoch ahead
+            leader_schedule_epoch: self.epoch + 1,
             unix_timestamp: self.now,
         }
     }
